@@ -59,6 +59,15 @@ Theorem no_unsanctioned_source :
 Proof. apply check_all_sound. vm_compute. reflexivity. Qed.
 Print Assumptions no_unsanctioned_source.
 
+(** (a3) the per-function obligation cases evaluated on every run ([check_static], which is what names
+    an offending function in the report) decide the same thing: an occurrence the case check does not
+    flag, and that lies on a path, is sanctioned. *)
+Theorem static_case_sound :
+  forall (d : desc) (n : positive),
+    offending d = false -> node_of d = Some n -> path G roots n -> sanctioned d.
+Proof. exact offending_false_sound. Qed.
+Print Assumptions static_case_sound.
+
 (** (b) the model side: for any chain given as a block-application function, any two replicas —
     whatever their wall clocks, restart points (under the store round-trip hypothesis) and
     number of repeated exports — produce the same observations and the same export bytes. *)
